@@ -75,13 +75,14 @@ CLAIMED = {
    design="6/C07", engine="coq-snake",
    technique="Coq proof (partial) + trace correspondence + exact tensor-semantics oracle"),
  "C04": dict(
-   text="8 theorems about the Gallina model of monoidal.Functor/rigid.Functor application (finite object and box "
+   text="9 theorems about the Gallina model of monoidal.Functor/rigid.Functor application (finite object and box "
         "tables; Swap, Cup, Cap and daggered boxes mapped as the code does): images are well-typed from F(dom) to "
         "F(cod); F(Id) = Id; F(a >> b) = F(a) >> F(b) and F(a @ b) = F(a) @ F(b) as equalities of values for all "
         "well-typed diagrams and all functors defined on them (object images of any length incl. empty); the object "
-        "map is a monoid homomorphism sending .l/.r to .l/.r for every winding number.  Partial: the dagger law is "
-        "false as == for composite swaps (known finding F19) and is only stated; slices and sums are covered by the "
-        "check only.  Tie to /repo: random functors given as dicts and as callables, six laws per case decided by "
+        "map is a monoid homomorphism sending .l/.r to .l/.r for every winding number; the dagger law F(d[::-1]) = "
+        "F(d)[::-1] for diagrams of plain (possibly daggered) boxes.  Partial: the dagger law is false as == for "
+        "composite swaps (known finding F19), so its unrestricted form is only stated; slices and sums are covered by "
+        "the check only.  Tie to /repo: random functors given as dicts and as callables, six laws per case decided by "
         "the implementation's ==, both sides compared with the extracted model.",
    design="6/C04", engine="coq-core",
    technique="Coq proof (layer-by-layer functor semantics) + extracted-model correspondence + == oracle"),
